@@ -256,11 +256,14 @@ func (s *Store) startOrReuseFile() (fref *FileRef, file File, err error) {
 	defer s.m.Unlock()
 
 	if s.footer != nil {
-		slocs, _ := s.footer.segmentLocs()
+		s.footer.segmentLocs()
 		defer s.footer.DecRef()
 
-		if len(slocs) > 0 {
-			fref := slocs[0].mref.fref
+		// The segments of child collections live in the same file, so
+		// the file is in use even when the top-level collection itself
+		// has no persisted segments.
+		if mref := s.footer.anyMmapRef(); mref != nil {
+			fref := mref.fref
 			file := fref.AddRef()
 
 			return fref, file, nil
